@@ -9,10 +9,12 @@
 EXTENDS Naturals, Sequences, FiniteSets, TLC, Json, SequencesExt
 Obs == ndJsonDeserialize("obs.ndjson")
 Cancelled(o) == o.kind \in {"ptrace-cancel", "envA-cancel", "unshare-cancel"}
-VerdictOK(o) == IF Cancelled(o) THEN o.r = "verdict" /\ o.status = 2
+FileOps(o) == o.kind \in {"envA-ops", "envB-ops"}
+VerdictOK(o) == IF FileOps(o) THEN o.r = "ok"
+                ELSE IF Cancelled(o) THEN o.r = "verdict" /\ o.status = 2
                 ELSE o.r = "verdict" /\ o.status = 7 /\ o.code = o.want
 \* a cancelled program may be killed before it has written anything
-TableOK(o)  == o.fds = <<"0:null", "1:null", "2:null", "3:own">> \/ (Cancelled(o) /\ o.fds = <<>>)
+TableOK(o)  == o.fds = <<"0:null", "1:null", "2:null", "3:own">> \/ ((Cancelled(o) \/ FileOps(o)) /\ o.fds = <<>>)
 EffectOK(o) == o.marker = o.expmarker \/ (Cancelled(o) /\ o.marker = "")
 \* no run receives another run's trap events: the handler of a traced run is only shown its own paths
 TrapsOK(o)  == o.foreign = 0 /\ (o.kind = "ptracet" => o.traps > 0)
